@@ -482,6 +482,83 @@ theorem authorizeStmt_sound (u : User) (database : String) (ps : List ExecPriv)
         | tail _ hmem => exact ih h p hmem
       · simp [hz] at h
 
+/-! ## query authorization is a conjunction over statements and privileges -/
+
+/-- one required privilege is held: no admin requirement, and the privilege is held on the
+database the requirement names, or else on the request's database. -/
+def privOk (u : User) (database : String) (p : ExecPriv) : Bool :=
+  !p.admin && authorizeDatabase u p.priv (if p.name = "" then database else p.name)
+
+theorem authorizeStmt_iff (u : User) (database : String) (ps : List ExecPriv) :
+    authorizeStmt u database ps = true ↔ ∀ p ∈ ps, privOk u database p = true := by
+  induction ps with
+  | nil => simp [authorizeStmt]
+  | cons x xs ih =>
+    unfold authorizeStmt
+    cases hx : x.admin with
+    | true => simp [privOk, hx]
+    | false =>
+      cases hz : authorizeDatabase u x.priv (if x.name = "" then database else x.name) with
+      | false => simp [privOk, hx, hz]
+      | true => simp [privOk, hx, hz, ih]
+
+/-- **query authorization is a plain conjunction**: an ordinary user (not admin, not rwuser) may
+run a query iff EVERY privilege required by EVERY statement is held on the database that
+requirement names, or else on the request's database — nothing carries over from one privilege
+or statement to the next. -/
+theorem authorizeQuery_iff (u : User) (hna : u.admin = false) (hnr : u.rwuser = false)
+    (database : String) (q : List Stmt) :
+    u.authorizeQuery database q = true ↔ ∀ s ∈ q, ∀ p ∈ s.privs, privOk u database p = true := by
+  unfold User.authorizeQuery
+  simp only [hna, hnr, Bool.false_eq_true, ↓reduceIte, List.all_eq_true]
+  constructor
+  · intro h s hs
+    exact (authorizeStmt_iff u database s.privs).mp (h s hs)
+  · intro h s hs
+    exact (authorizeStmt_iff u database s.privs).mpr (h s hs)
+
+/-- no carry-over between statements: a concatenation is authorized iff both halves are. -/
+theorem authorizeQuery_append (u : User) (database : String) (q1 q2 : List Stmt) :
+    u.authorizeQuery database (q1 ++ q2) = (u.authorizeQuery database q1 && u.authorizeQuery database q2) := by
+  unfold User.authorizeQuery
+  cases u.admin <;> cases u.rwuser <;> simp [List.all_append]
+
+/-- order independence: permuting the statements does not change the decision. -/
+theorem authorizeQuery_perm (u : User) (database : String) (q q' : List Stmt) (h : q.Perm q') :
+    u.authorizeQuery database q = u.authorizeQuery database q' := by
+  have hall : ∀ f : Stmt → Bool, q.all f = q'.all f := by
+    intro f
+    cases hq : q.all f <;> cases hq' : q'.all f <;> try rfl
+    · rw [List.all_eq_true] at hq'
+      have : q.all f = true := List.all_eq_true.mpr (fun s hs => hq' s (h.mem_iff.mp hs))
+      rw [this] at hq; cases hq
+    · rw [List.all_eq_true] at hq
+      have : q'.all f = true := List.all_eq_true.mpr (fun s hs => hq s (h.mem_iff.mpr hs))
+      rw [this] at hq'; cases hq'
+  unfold User.authorizeQuery
+  rw [hall, hall]
+
+/-- … and so does permuting the privileges one statement requires. -/
+theorem authorizeStmt_perm (u : User) (database : String) (ps ps' : List ExecPriv) (h : ps.Perm ps') :
+    authorizeStmt u database ps = authorizeStmt u database ps' := by
+  cases h1 : authorizeStmt u database ps <;> cases h2 : authorizeStmt u database ps' <;> try rfl
+  · have := (authorizeStmt_iff u database ps').mp h2
+    have h3 := (authorizeStmt_iff u database ps).mpr (fun p hp => this p (h.mem_iff.mp hp))
+    rw [h3] at h1; cases h1
+  · have := (authorizeStmt_iff u database ps).mp h1
+    have h3 := (authorizeStmt_iff u database ps').mpr (fun p hp => this p (h.mem_iff.mpr hp))
+    rw [h3] at h2; cases h2
+
+def roU : User := ⟨"ro", "p", false, false, [("dba", .read)]⟩
+def showOnA : Stmt := ⟨"ShowMeasurementsStatement", "", [⟨false, "dba", true, .read⟩]⟩
+def selUnq : Stmt := ⟨"SelectStatement", "", [⟨false, "", true, .read⟩]⟩
+/-- the explicit database of an earlier statement / source does not leak into a later
+unqualified one: with request db `dbb` a user holding READ on `dba` only is refused, in either order. -/
+example : roU.authorizeQuery "dbb" [showOnA, selUnq] = false := by decide
+example : roU.authorizeQuery "dbb" [selUnq, showOnA] = false := by decide
+example : roU.authorizeQuery "dbb" [⟨"SelectStatement", "", [⟨false, "dba", true, .read⟩, ⟨false, "", true, .read⟩]⟩] = false := by decide
+example : roU.authorizeQuery "dba" [showOnA, selUnq] = true := by decide
+
 /-! ## end to end on the regenerated table (non-vacuity of the hypotheses above; paths are `List Char`) -/
 
 def basicCfg : Cfg := ⟨false, false, true, false⟩
